@@ -8,6 +8,7 @@ the interconnection theorems and `Fin n` where the code enumerates coordinates.
 import CtrlVerif.Model.IOSysDyn
 import CtrlVerif.Lemmas.IOSys
 import CtrlVerif.Lemmas.IOSysHist
+import CtrlVerif.Lemmas.IOSysStore
 import CtrlVerif.Lemmas.SS
 
 namespace CtrlVerif.C08
@@ -1085,5 +1086,141 @@ example :
   decide +kernel
 
 end History
+
+/-! ## caller-owned arrays and the arrays of earlier results (`find_operating_point`) -/
+
+section Arrays
+
+open Store OpCall
+
+variable {α : Type}
+
+/-- **A call leaves every array that existed before it as it was**: the caller's initial guesses
+and targets, and the arrays of every `OperatingPoint` returned earlier — whatever points the root
+finder evaluates `rootfun` at. -/
+theorem op_call_frame (s : Store α) (c : OpCall α) : Store.Extends s (run s c).1 := by
+  cases c with
+  | inputsFixed x0 u0 root h =>
+    simp only [run]
+    exact ((((OpArg.process_extends s x0).trans (OpArg.process_extends _ u0)).trans
+      (extends_alloc _ _)).trans (extends_alloc _ _))
+  | outputsFixed x0 u0 n root h =>
+    simp only [run]
+    exact (((((OpArg.process_extends s x0).trans (OpArg.process_extends _ u0)).trans
+      (extends_alloc _ _)).trans (extends_alloc _ _)).trans (extends_alloc _ _))
+  | general x0 u0 sv iv probes root h =>
+    simp only [run]
+    have h2 : Store.Extends s ((u0.process (x0.process s).1).1) :=
+      (OpArg.process_extends s x0).trans (OpArg.process_extends _ u0)
+    generalize (u0.process (x0.process s).1).1 = s2 at h2 ⊢
+    generalize (u0.process (x0.process s).1).2 = ru0
+    generalize (x0.process s).2 = rx0
+    have h3 : Store.Extends s (s2.alloc (s2.read rx0)).1 := h2.trans (extends_alloc _ _)
+    have h4 : Store.Extends s ((s2.alloc (s2.read rx0)).1.alloc ((s2.alloc (s2.read rx0)).1.read ru0)).1 :=
+      h3.trans (extends_alloc _ _)
+    refine (iterate_extends ?_ ?_ sv iv _ _ h4).trans (extends_alloc _ _)
+    · simpa using h2.1
+    · simpa using Nat.le_succ_of_le h2.1
+
+/-- the arrays of the returned `OperatingPoint` exist after the call. -/
+theorem op_refs_valid (s : Store α) (c : OpCall α) (hv : c.Valid s) :
+    (run s c).2.states < (run s c).1.length ∧ (run s c).2.inputs < (run s c).1.length ∧
+      (run s c).2.outputs < (run s c).1.length := by
+  cases c with
+  | inputsFixed x0 u0 root h =>
+    have hu := OpArg.process_ref_lt (x0.process s).1 u0 (hv.2.mono (OpArg.process_extends s x0).1)
+    simp only [run, alloc_length, alloc_ref]
+    omega
+  | outputsFixed x0 u0 n root h =>
+    simp only [run, alloc_length, alloc_ref]
+    omega
+  | general x0 u0 sv iv probes root h =>
+    simp only [run, alloc_length, alloc_ref, iterate_length]
+    omega
+
+/-- the same for a whole history of calls (a later call may name arrays returned by an earlier one). -/
+theorem op_history_frame (cs : List (OpCall α)) : ∀ s : Store α, Store.Extends s (runAll s cs).1 := by
+  induction cs with
+  | nil => intro s; exact Store.Extends.refl s
+  | cons c cs ih => intro s; simp only [runAll]; exact (op_call_frame s c).trans (ih _)
+
+/-- **The caller's arrays hold after any history of calls what they held before it.** -/
+theorem op_caller_arrays_unchanged (s : Store α) (cs : List (OpCall α)) (r : Nat) (hr : r < s.length) :
+    (runAll s cs).1.read r = s.read r :=
+  (op_history_frame cs s).2 r hr
+
+/-- **An `OperatingPoint` reads after any later calls as it read when its call returned.** -/
+theorem op_results_stable (s : Store α) (c : OpCall α) (cs : List (OpCall α)) (hv : c.Valid s) :
+    (runAll (run s c).1 cs).1.read (run s c).2.states = (run s c).1.read (run s c).2.states ∧
+    (runAll (run s c).1 cs).1.read (run s c).2.inputs = (run s c).1.read (run s c).2.inputs ∧
+    (runAll (run s c).1 cs).1.read (run s c).2.outputs = (run s c).1.read (run s c).2.outputs := by
+  obtain ⟨h1, h2, h3⟩ := op_refs_valid s c hv
+  have hf := op_history_frame cs (run s c).1
+  exact ⟨hf.2 _ h1, hf.2 _ h2, hf.2 _ h3⟩
+
+/-- … also in the middle of a history: the result of the call after `pre`, read after `post`. -/
+theorem op_results_stable_mid (s : Store α) (pre : List (OpCall α)) (c : OpCall α) (post : List (OpCall α))
+    (hv : c.Valid (runAll s pre).1) :
+    let s1 := (runAll s pre).1
+    (runAll (run s1 c).1 post).1.read (run s1 c).2.states = (run s1 c).1.read (run s1 c).2.states ∧
+    (runAll (run s1 c).1 post).1.read (run s1 c).2.inputs = (run s1 c).1.read (run s1 c).2.inputs :=
+  ⟨(op_results_stable _ c post hv).1, (op_results_stable _ c post hv).2.1⟩
+
+/-- **Contents of the result of the index-list branch**: the returned `states` / `inputs` hold the
+contents of the processed guesses with the writes `x[state_vars] = z[:k]`, `u[input_vars] = z[k:]`
+of every `rootfun` evaluation and of `result.x` applied in order, and `outputs` is the output map
+there. -/
+theorem op_general_contents (s : Store α) (x0 u0 : OpArg α) (sv iv : List Nat) (probes : List (List α))
+    (root : List α) (h : List α → List α → List α) (hx0 : x0.Valid s) (hu0 : u0.Valid s) :
+    let s2 := (u0.process (x0.process s).1).1
+    let w := assignAll (s2.read (x0.process s).2) (s2.read (u0.process (x0.process s).1).2) sv iv
+      (probes ++ [root])
+    let r := run s (.general x0 u0 sv iv probes root h)
+    r.1.read r.2.states = w.1 ∧ r.1.read r.2.inputs = w.2 ∧ r.1.read r.2.outputs = h w.1 w.2 := by
+  have hrx0 : (x0.process s).2 < (u0.process (x0.process s).1).1.length :=
+    Nat.lt_of_lt_of_le (OpArg.process_ref_lt s x0 hx0) (OpArg.process_extends _ u0).1
+  have hru0 := OpArg.process_ref_lt (x0.process s).1 u0 (hu0.mono (OpArg.process_extends s x0).1)
+  simp only [run]
+  generalize (u0.process (x0.process s).1).1 = s2 at hrx0 hru0 ⊢
+  generalize (u0.process (x0.process s).1).2 = ru0 at hru0 ⊢
+  generalize (x0.process s).2 = rx0 at hrx0 ⊢
+  have e1 : ((s2.alloc (s2.read rx0)).1.alloc ((s2.alloc (s2.read rx0)).1.read ru0)).1.read s2.length
+      = s2.read rx0 := by
+    rw [read_alloc_old _ _ (by simp), read_alloc_new]
+  have e2 : ((s2.alloc (s2.read rx0)).1.alloc ((s2.alloc (s2.read rx0)).1.read ru0)).1.read (s2.length + 1)
+      = s2.read ru0 := by
+    have := read_alloc_new (s2.alloc (s2.read rx0)).1 ((s2.alloc (s2.read rx0)).1.read ru0)
+    rw [alloc_length] at this
+    rw [this, read_alloc_old _ _ hru0]
+  obtain ⟨i1, i2⟩ := iterate_read (rx := s2.length) (ru := s2.length + 1) (by omega) sv iv (probes ++ [root])
+    ((s2.alloc (s2.read rx0)).1.alloc ((s2.alloc (s2.read rx0)).1.read ru0)).1
+    (by rw [alloc_length, alloc_length]; omega) (by rw [alloc_length, alloc_length]; omega)
+  rw [e1, e2] at i1 i2
+  simp only [alloc_ref, alloc_length]
+  refine ⟨?_, ?_, ?_⟩
+  · rw [read_alloc_old _ _ (by rw [iterate_length, alloc_length, alloc_length]; omega), i1]
+  · rw [read_alloc_old _ _ (by rw [iterate_length, alloc_length, alloc_length]; omega), i2]
+  · rw [read_alloc_new, i1, i2]
+
+/-- non-vacuity and separation: a scheduling loop of two calls of the index-list branch with the
+same two float arrays (addresses 0 and 1, contents `[5]`, `[5]`) as initial guesses.  With the
+code's `np.array` copies the caller's arrays still hold 5 and the first result still reads 1
+after the second call; with `np.asarray` (no copy) the first call already changes the caller's
+arrays, and the second call rewrites what the first one returned. -/
+example :
+    let s : Store Int := [[5], [5]]
+    let c1 := OpCall.general (.view 0) (.view 1) [0] [0] [[7, 7]] [1, 10] (fun x u => x ++ u)
+    let c2 := OpCall.general (.view 0) (.view 1) [0] [0] [] [2, 20] (fun x u => x ++ u)
+    let r1 := run s c1
+    let s2 := (run r1.1 c2).1
+    (s2.read 0, s2.read 1, r1.1.read r1.2.states, s2.read r1.2.states, s2.read r1.2.inputs)
+      = ([5], [5], [1], [1], [10]) ∧
+    (let a1 := runGeneralAliased s (.view 0) (.view 1) [0] [0] [[7, 7]] [1, 10] (fun x u => x ++ u)
+     let a2 := runGeneralAliased a1.1 (.view 0) (.view 1) [0] [0] [] [2, 20] (fun x u => x ++ u)
+     (a1.1.read 0, a1.1.read a1.2.states, a2.1.read a1.2.states, a2.1.read a1.2.inputs)
+       = ([1], [1], [2], [20])) := by
+  decide
+
+end Arrays
 
 end CtrlVerif.C08
